@@ -1624,10 +1624,11 @@ impl StreamingQueueCompressor {
                         sample_name: sample_name.clone(),
                         contig_name: String::from("<SYNC>"),
                         data: Vec::new(),
-                        // Use large priority boost to ensure sync tokens are processed BEFORE any contigs
-                        // With +1, contigs with same priority but higher cost were being popped first
-                        // This caused barrier deadlock when some workers exited before others got sync tokens
-                        sample_priority: new_priority + 1_000_000,
+                        // C++ AGC: the tokens carry the priority the sample had BEFORE the decrement, with
+                        // cost 0, so they are popped after every contig already queued with that priority
+                        // and before the contigs that follow (which use new_priority).
+                        // (new_priority + 1_000_000 overflowed i32: priorities start at i32::MAX.)
+                        sample_priority: current_priority,
                         cost: 0,
                         sequence,
                         is_sync_token: true,
@@ -1675,7 +1676,9 @@ impl StreamingQueueCompressor {
                                 sample_name: sample_name.clone(),
                                 contig_name: String::from("<SYNC>"),
                                 data: Vec::new(), // Empty data for sync token
-                                sample_priority: sample_priority + 1_000_000, // Much higher priority than any contigs
+                                // Just above the new sample's contigs, at or below the previous sample's
+                                // (sample_priority + 1_000_000 overflowed i32: priorities start at i32::MAX)
+                                sample_priority: sample_priority.saturating_add(1),
                                 cost: 0, // No cost for sync tokens
                                 sequence,
                                 is_sync_token: true,
